@@ -8,7 +8,8 @@
   would check it: by READING THROUGH THE DESTINATION PATH before and after.
 
   For every fault (`Cli.Faults`: any size limit, a failing rename), every assembler outcome, every
-  file system `fs` and every destination path `dest` in `Shape`:
+  file system `fs` whose working directory is a directory (`FsOk` — nothing else is assumed: in
+  particular an entry named `.lace-tmp<pid>` MAY exist) and every destination path in `Shape`:
 
   * `compileP_all_or_nothing`   exit 0 ⇒ reading through `dest` yields exactly the object bytes;
                                 exit ≠ 0 ⇒ reading through `dest` yields what it yielded before
@@ -25,73 +26,131 @@
                                 symbolic link with the same target text.
   * `dangling_link_replaced`    when the path is a link that leads nowhere and compile succeeds,
                                 the link's own name is now a regular file with the object bytes.
-  * `compileP_refines_compileFs`  for a plain name in the working directory the flattened model
-                                of `Model/CliFlows.lean` is exactly what `compileP` does, so the
-                                theorems of `Props/C08.lean` / `C07.lean` speak about `compileP`.
+  * `tmp_name_exists_refused`   if the name the temporary file would get exists (as anything: a
+                                file, a directory, a link — live, dangling, pointing at the
+                                destination), compile exits non-zero and NOTHING changes.
+  * `unresolvable_refused`      a destination that cannot be resolved for a reason other than
+                                "does not exist" (too many levels of symbolic links, a file used as
+                                a directory): exit non-zero, NOTHING changes.
+  * `compileP_refines_compileFs`  when the temporary name is free, the flattened model of
+                                `Model/CliFlows.lean` is exactly the abstraction of `compileP`, so
+                                the theorems of `Props/C08.lean` / `C07.lean` speak about `compileP`.
 
-  `Shape` (the destinations covered): (1) `resolves` — the path leads to an existing entry through
-  ANY number of links in ANY position: a regular file with any number of names, a device, a
-  directory; (2) `fresh` — the directory part is a chain of plain directories and the path leads
-  nowhere: the name is absent, or a symbolic link that is dangling (relative or absolute target)
-  or loops; (3) `noDir` — a component in the middle is missing.  Together these contain every
-  destination the harness exercises (`obs_c08`).  NOT covered: a path that leads nowhere and whose
-  directory part goes through symbolic links (`linkdir/new.lc3`); an `example` below evaluates
-  one such case.  The statement without the restriction is FALSE at the limit of link-following:
-  `symlink_depth_counterexample` (a path that needs one link more than the limit for
-  `canonicalize` but not for `rename`).
+  `Shape` is ONE condition: if the destination is a symbolic link that leads nowhere (NotFound),
+  then its directory part is a chain of plain directories.  Everything else is covered
+  (`Shape.ofResolves`, `.ofUnresolvable`, `.ofNotLink`, `.ofPlainDir`): paths that lead to an
+  existing entry through ANY number of links in ANY position (a regular file with any number of
+  names, a device, a directory); paths that fail with a link-depth or not-a-directory error; new
+  names and missing directories behind ANY directory part, symbolic links to directories
+  included.  NOT covered: a dangling link reached THROUGH links (`linkdir/dangling.lc3`): the
+  proof would need that re-binding the link's own location cannot disturb the resolution of the
+  directory part, which passes through arbitrary links (not attempted; no counterexample known).
 
-  Assumptions (`FsOk`): the working directory is a real directory given by its link-free location;
-  NO ENTRY NAMED `.lace-tmp<pid>` EXISTS.  The second one matters: `File::create` follows links and
-  truncates, so a pre-existing `.lace-tmp<pid>` that is a symbolic link (or a second name) of the
-  destination makes `compile` truncate the destination in place — `stale_tmp_link_truncates`.
+  Two defects the model exposed in the implementation before lace cb35643 / 2214b6f, kept as
+  theorems about the OLD definitions (`compilePBeforeFix`), both replayed on the binary then and
+  now exercised by the harness (`stale:`, `deep:` destinations):
+  `stale_tmp_link_truncates_before_fix`, `symlink_depth_counterexample_before_fix`; the same
+  inputs on the fixed model: `stale_tmp_link_refused`, `symlink_depth_refused`.
 
   Not expressible in this model: permissions; `.`/`..`; mount points; a crash (SIGKILL, power
   loss) between two operations — the rename makes every intermediate state safe for the
-  destination (it holds the old entry or the new one), but a stray `.lace-tmp<pid>` would survive;
-  concurrent writers to the same destination.
+  destination (it holds the old entry or the new one), but a stray `.lace-tmp<pid>` would survive
+  (and make the next compile with the same process id refuse); concurrent writers.
 -/
 import Lace.Proofs.PathFsWan
 import Lace.Props.C08
 namespace Lace.C08
 open Lace Cli PathFs
 
-/-- Assumptions about the file system `compile` runs in. -/
-structure FsOk (fs : PathFs.Fs) (tmp : Name) : Prop where
+/-- The one assumption about the file system `compile` runs in. -/
+structure FsOk (fs : PathFs.Fs) : Prop where
   /-- the working directory is a directory, named by its link-free location -/
   cwd : CanonDir fs.ents fs.cwd
-  /-- no entry anywhere is named like the temporary file -/
-  tmpFree : ∀ D, entryAt fs.ents (D ++ [tmp]) = none
 
 def _root_.Lace.PathFs.Res.isFound : Res → Bool
   | .found _ _ => true
   | _ => false
 
-/-- The destination paths covered by the theorems. -/
-inductive Shape (fs : PathFs.Fs) (fuel : Nat) (tmp : Name) (dest : Path) : Prop where
-  /-- the path leads to an existing entry (through any links) -/
-  | resolves (loc : Loc) (e : Entry) (h : resolve fs true fuel dest = .found loc e)
-  /-- the path leads nowhere; its directory part is a chain of plain directories -/
-  | fresh (init : List Name) (n : Name) (hc : dest.comps = init ++ [n]) (hn : n ≠ tmp)
-      (hd : dirsFrom fs.ents (startOf fs dest) init) (hnf : (resolve fs true fuel dest).isFound = false)
-  /-- a directory on the way does not exist -/
-  | noDir (pre : List Name) (n : Name) (rest : List Name) (hc : dest.comps = pre ++ n :: rest)
-      (hr : rest ≠ []) (hd : dirsFrom fs.ents (startOf fs dest) pre)
-      (hn : entryAt fs.ents (startOf fs dest ++ pre ++ [n]) = none)
+/-- The destination paths covered by the theorems: a destination that is a symbolic link leading
+nowhere sits in a directory reached without links. (Every other destination is covered.) -/
+def Shape (fs : PathFs.Fs) (fuel : Nat) (dest : Path) : Prop :=
+  ∀ (init : List Name) (n : Name) (D : Loc) (t : Path),
+    dest.comps = init ++ [n] → canonicalize fs fuel dest = .notFound →
+    walk fs.ents true fuel (startOf fs dest) init = .found D .dir →
+    entryAt fs.ents (D ++ [n]) = some (.link t) →
+    dirsFrom fs.ents (startOf fs dest) init
+
+theorem Shape.ofResolves {fs : PathFs.Fs} {fuel : Nat} {dest : Path} {loc : Loc} {e : Entry}
+    (h : resolve fs true fuel dest = .found loc e) : Shape fs fuel dest := by
+  intro _ _ _ _ _ hc; simp [canonicalize, h] at hc
+
+theorem Shape.ofUnresolvable {fs : PathFs.Fs} {fuel : Nat} {dest : Path}
+    (h : canonicalize fs fuel dest = .otherError) : Shape fs fuel dest := by
+  intro _ _ _ _ _ hc; rw [h] at hc; cases hc
+
+/-- The last component is anything but a symbolic link (absent, for one): covered, whatever the
+directory part goes through. -/
+theorem Shape.ofNotLink {fs : PathFs.Fs} {fuel : Nat} {dest : Path}
+    (h : ∀ init n D t, dest.comps = init ++ [n] →
+      walk fs.ents true fuel (startOf fs dest) init = .found D .dir → entryAt fs.ents (D ++ [n]) ≠ some (.link t)) :
+    Shape fs fuel dest := by
+  intro init n D t hc _ hw hl; exact absurd hl (h init n D t hc hw)
+
+/-- A destination whose directory part is a chain of plain directories — whatever its last
+component is: absent, a file with any number of names, a device, a directory, a link of any
+kind — is covered. In particular every name in the working directory. -/
+theorem Shape.ofPlainDir (fs : PathFs.Fs) (fuel : Nat) (dest : Path) (init : List Name) (n : Name)
+    (hc : dest.comps = init ++ [n]) (hd : dirsFrom fs.ents (startOf fs dest) init) :
+    Shape fs fuel dest := by
+  intro init' n' _ _ hc' _ _ _
+  rw [hc] at hc'
+  have := (List.append_inj' hc' rfl).1
+  subst this; exact hd
+
+theorem Shape.ofName (fs : PathFs.Fs) (fuel : Nat) (n : Name) : Shape fs fuel ⟨false, [n]⟩ :=
+  Shape.ofPlainDir fs fuel _ [] n rfl (by simp [dirsFrom])
 
 /-- The destination can be replaced by a regular file: the path leads to a regular file, or it
-leads nowhere but its last component can be (re)bound. (It cannot: a device, a directory, a
-missing directory.) -/
+leads nowhere (NotFound) but its last component can be (re)bound. It cannot: a device, a
+directory, a missing directory, a path that cannot be resolved. -/
 def replaceable (fs : PathFs.Fs) (fuel : Nat) (dest : Path) : Bool :=
   match resolve fs true fuel dest with
   | .found _ (.file _) => true
   | .found _ _ => false
-  | _ => (renameTarget fs fuel dest).isSome
+  | .missing _ _ => (renameTarget fs fuel dest).isSome
+  | .error .noent => (renameTarget fs fuel dest).isSome
+  | .error _ => false
+
+theorem replaceable_notFound {fs : PathFs.Fs} {fuel : Nat} {dest : Path} (h : canonicalize fs fuel dest = .notFound) :
+    replaceable fs fuel dest = (renameTarget fs fuel dest).isSome := by
+  unfold canonicalize at h; unfold replaceable
+  rcases hr : resolve fs true fuel dest with ⟨l, e⟩ | ⟨d, n⟩ | e
+  · rw [hr] at h; cases h
+  · rfl
+  · rw [hr] at h; cases e <;> first | rfl | cases h
+
+theorem replaceable_otherError {fs : PathFs.Fs} {fuel : Nat} {dest : Path} (h : canonicalize fs fuel dest = .otherError) :
+    replaceable fs fuel dest = false := by
+  unfold canonicalize at h; unfold replaceable
+  rcases hr : resolve fs true fuel dest with ⟨l, e⟩ | ⟨d, n⟩ | e
+  · rw [hr] at h; cases h
+  · rw [hr] at h; cases h
+  · rw [hr] at h; cases e <;> first | rfl | cases h
+
+/-- The name the temporary file would get is taken (by anything). -/
+def tmpClash (fs : PathFs.Fs) (fuel pid : Nat) (dest : Path) : Bool :=
+  match destLoc fs fuel dest with
+  | some L => (entryAt fs.ents (L.dropLast ++ [tmpName pid])).isSome
+  | none => false
 
 /-- What `write_all_or_nothing` achieves, in terms of look-ups. -/
-structure WanSpec (f : Faults) (fs : PathFs.Fs) (fuel : Nat) (dest : Path) (bytes : List Nat) (r : PathFs.Fs × Bool) : Prop where
-  /-- it succeeds exactly when the destination is replaceable, everything fits under the size
-  limit, and the rename does not fail -/
-  status : r.2 = true ↔ replaceable fs fuel dest = true ∧ (writeLimited f [] bytes).2 = true ∧ f.renameFails = false
+structure WanSpec (f : Faults) (fs : PathFs.Fs) (fuel pid : Nat) (dest : Path) (bytes : List Nat) (r : PathFs.Fs × Bool) : Prop where
+  /-- it succeeds exactly when the destination is replaceable, the temporary name is free,
+  everything fits under the size limit, and the rename does not fail -/
+  status : r.2 = true ↔ replaceable fs fuel dest = true ∧ tmpClash fs fuel pid dest = false ∧
+    (writeLimited f [] bytes).2 = true ∧ f.renameFails = false
+  /-- not replaceable, or the temporary name is taken: not a single operation changes anything -/
+  refused : replaceable fs fuel dest = false ∨ tmpClash fs fuel pid dest = true → r = (fs, false)
   cwd : r.1.cwd = fs.cwd
   data : ∀ i, i ≠ freshIno fs → contents r.1 i = contents fs i
   ok : r.2 = true → ∃ L, destLoc fs fuel dest = some L ∧
@@ -99,11 +158,13 @@ structure WanSpec (f : Faults) (fs : PathFs.Fs) (fuel : Nat) (dest : Path) (byte
     contents r.1 (freshIno fs) = bytes ∧ resolve r.1 true fuel dest = .found L (.file (freshIno fs))
   fail : r.2 = false → ∀ l, entryAt r.1.ents l = entryAt fs.ents l
 
-theorem wanSpec_unchanged (f : Faults) (fs : PathFs.Fs) (fuel : Nat) (dest : Path) (bytes : List Nat)
-    (h : replaceable fs fuel dest = false) : WanSpec f fs fuel dest bytes (fs, false) :=
-  { status := by simp [h], cwd := rfl, data := fun _ _ => rfl, ok := by simp, fail := fun _ _ => rfl }
+theorem wanSpec_unchanged (f : Faults) (fs : PathFs.Fs) (fuel pid : Nat) (dest : Path) (bytes : List Nat)
+    (h : replaceable fs fuel dest = false ∨ tmpClash fs fuel pid dest = true) :
+    WanSpec f fs fuel pid dest bytes (fs, false) :=
+  { status := by rcases h with h | h <;> simp [h], refused := fun _ => rfl, cwd := rfl,
+    data := fun _ _ => rfl, ok := by simp, fail := fun _ _ => rfl }
 
-theorem startOf_canon {fs : PathFs.Fs} {tmp : Name} (hfs : FsOk fs tmp) (p : Path) :
+theorem startOf_canon {fs : PathFs.Fs} (hfs : FsOk fs) (p : Path) :
     CanonDir fs.ents (startOf fs p) := by
   unfold startOf; split
   · exact CanonDir_nil _
@@ -111,11 +172,11 @@ theorem startOf_canon {fs : PathFs.Fs} {tmp : Name} (hfs : FsOk fs tmp) (p : Pat
 
 /-- A resolution that starts in the working directory or at the root ends where the entry table
 says. -/
-theorem resolve_ok {fs : PathFs.Fs} {tmp : Name} (hfs : FsOk fs tmp) (fl : Bool) (fuel : Nat) (p : Path) :
+theorem resolve_ok {fs : PathFs.Fs} (hfs : FsOk fs) (fl : Bool) (fuel : Nat) (p : Path) :
     ResOk fs.ents (resolve fs fl fuel p) :=
   walk_canon fs.ents fl fuel _ _ (startOf_canon hfs p)
 
-theorem entryAt_of_found {fs : PathFs.Fs} {tmp : Name} (hfs : FsOk fs tmp) {fl : Bool} {fuel : Nat} {p : Path}
+theorem entryAt_of_found {fs : PathFs.Fs} (hfs : FsOk fs) {fl : Bool} {fuel : Nat} {p : Path}
     {loc : Loc} {e : Entry} (h : resolve fs fl fuel p = .found loc e) : entryAt fs.ents loc = some e := by
   have := resolve_ok hfs fl fuel p
   rw [h] at this
@@ -123,29 +184,40 @@ theorem entryAt_of_found {fs : PathFs.Fs} {tmp : Name} (hfs : FsOk fs tmp) {fl :
   · subst he; exact entryAt_of_CanonDir hc
   · exact he
 
-theorem walk_noDir (m : Ents) (fl : Bool) (fuel : Nat) (S pre : List Name) (n : Name) (rest : List Name)
-    (hr : rest ≠ []) (hd : dirsFrom m S pre) (hn : entryAt m (S ++ pre ++ [n]) = none) :
-    walk m fl fuel S (pre ++ n :: rest) = .error := by
-  rw [walk_plain _ _ _ _ _ _ hd]
-  cases rest with
-  | nil => exact absurd rfl hr
-  | cons a b => simp only [walkWith, hn]; simp
+theorem canonicalize_notFound {fs : PathFs.Fs} {fuel : Nat} {p : Path} (h : canonicalize fs fuel p = .notFound) :
+    (∃ d n, resolve fs true fuel p = .missing d n) ∨ resolve fs true fuel p = .error .noent := by
+  unfold canonicalize at h
+  rcases hr : resolve fs true fuel p with ⟨l, e⟩ | ⟨d, n⟩ | e
+  · rw [hr] at h; cases h
+  · exact Or.inl ⟨d, n, rfl⟩
+  · cases e <;> simp_all
+
+theorem dropLast_snoc {α} (D : List α) (n : α) : (D ++ [n]).dropLast = D := by simp
+
+theorem ne_snoc_of_short {α} (D : List α) (x : α) (l : List α) (hl : l.length ≤ D.length) : l ≠ D ++ [x] := by
+  intro h; subst h; simp at hl; omega
 
 /-- **`write_all_or_nothing` on paths.** -/
 theorem writeAllOrNothingP_spec (f : Faults) (fuel pid : Nat) (fs : PathFs.Fs) (dest : Path) (bytes : List Nat)
-    (hne : bytes ≠ []) (hfs : FsOk fs (tmpName pid)) (hs : Shape fs fuel (tmpName pid) dest) :
-    WanSpec f fs fuel dest bytes (writeAllOrNothingP f fuel pid fs dest bytes) := by
+    (hne : bytes ≠ []) (hfs : FsOk fs) (hs : Shape fs fuel dest) :
+    WanSpec f fs fuel pid dest bytes (writeAllOrNothingP f fuel pid fs dest bytes) := by
   have hemp : bytes.isEmpty = false := by cases bytes <;> simp_all
-  cases hs with
-  | resolves loc e h =>
-    have hcan : canonicalize fs fuel dest = some ⟨true, loc⟩ := by simp [canonicalize, h]
+  rcases hcan : canonicalize fs fuel dest with dp | _ | _
+  · -- the path leads somewhere
+    obtain ⟨loc, e, h, hdp⟩ : ∃ loc e, resolve fs true fuel dest = .found loc e ∧ dp = ⟨true, loc⟩ := by
+      unfold canonicalize at hcan
+      rcases hr : resolve fs true fuel dest with ⟨l, e⟩ | ⟨d, n⟩ | e
+      · rw [hr] at hcan; cases hcan; exact ⟨l, e, rfl, rfl⟩
+      · rw [hr] at hcan; cases hcan
+      · rw [hr] at hcan; cases e <;> cases hcan
+    subst hdp
     have hro := resolve_ok hfs true fuel dest
     have hnl : ∀ t, e ≠ .link t := by
       intro t ht; subst ht
       exact walk_follow_not_link _ _ _ _ _ _ h
     rw [h] at hro
     unfold writeAllOrNothingP
-    rw [hcan]; simp only [Option.getD_some]
+    rw [hcan]; simp only
     rcases hro with ⟨he, hc⟩ | ⟨D, n, hloc, hD, hent, hnd⟩
     · -- a directory: `File::create` fails
       subst he
@@ -153,7 +225,7 @@ theorem writeAllOrNothingP_spec (f : Faults) (fuel pid : Nat) (fs : PathFs.Fs) (
         have := walk_plain fs.ents true fuel [] loc [] hc
         simpa [resolve, startOf, walkWith] using this
       simp only [metadataIsFile, hres, if_true, writeFile, create]
-      exact wanSpec_unchanged _ _ _ _ _ (by simp [replaceable, h])
+      exact wanSpec_unchanged _ _ _ _ _ _ (Or.inl (by simp [replaceable, h]))
     · subst hloc
       have hres : ∀ fl, resolve fs fl fuel ⟨true, D ++ [n]⟩ = .found (D ++ [n]) e := by
         intro fl
@@ -165,105 +237,173 @@ theorem writeAllOrNothingP_spec (f : Faults) (fuel pid : Nat) (fs : PathFs.Fs) (
       | link t => exact absurd rfl (hnl t)
       | dev =>
         simp only [metadataIsFile, hres, if_true, writeFile, create, write, hemp]
-        exact wanSpec_unchanged _ _ _ _ _ (by simp [replaceable, h])
+        exact wanSpec_unchanged _ _ _ _ _ _ (Or.inl (by simp [replaceable, h]))
       | file i =>
         have hmeta : metadataIsFile fs fuel ⟨true, D ++ [n]⟩ = some true := by simp [metadataIsFile, hres]
         rw [hmeta]; simp only [Option.some.injEq, Bool.true_eq_false, if_false]
-        have hn : n ≠ tmpName pid := by
-          intro hn; subst hn; rw [hfs.tmpFree] at hent; cases hent
         have hS : startOf fs (⟨true, D ++ [n]⟩ : Path) = [] := rfl
-        obtain ⟨ho, hst⟩ := replaceVia_plain f fuel fs ⟨true, D ++ [n]⟩ (tmpName pid) bytes D n rfl
-          (by exact hD) hn (by rw [hS]; exact hfs.tmpFree _)
-          (Or.inr (Or.inl ⟨i, by rw [hS]; exact hent⟩))
-        rw [hS] at ho; simp only [List.nil_append] at ho
-        generalize replaceVia f fuel fs _ _ bytes = r at ho hst ⊢
-        refine { status := by rw [hst]; simp [replaceable, h], cwd := ho.cwd, data := ho.data, ok := ?_, fail := ho.fail }
-        intro hok
-        obtain ⟨hents, hdata⟩ := ho.ok hok
-        refine ⟨D ++ [n], by simp [destLoc, h], hents, hdata, ?_⟩
-        have hrl := walk_relabel (m1 := fs.ents) (m2 := r.1.ents) (D ++ [n]) i (freshIno fs)
-          (fun l hl => by rw [hents, if_neg hl]) hent (by rw [hents, if_pos rfl]) true fuel
-          (startOf fs dest) dest.comps
-        have hst : startOf r.1 dest = startOf fs dest := by simp [startOf, ho.cwd]
-        unfold resolve at h ⊢
-        rw [hst, hrl, h]; simp [relabel]
-  | fresh init n hc hn hd hnf =>
-    have hcan : canonicalize fs fuel dest = none := by
-      rcases hres : resolve fs true fuel dest with _ | _ | _ <;> simp_all [canonicalize, Res.isFound]
-    have hmeta : metadataIsFile fs fuel dest = none := by
-      rcases hres : resolve fs true fuel dest with _ | _ | _ <;> simp_all [metadataIsFile, Res.isFound]
-    unfold writeAllOrNothingP
-    rw [hcan]; simp only [Option.getD_none, hmeta]
-    simp only [reduceCtorEq, if_false]
-    -- the name itself: absent, or a link that leads nowhere
-    have hLcases : entryAt fs.ents (startOf fs dest ++ init ++ [n]) = none ∨
-        (∃ t, entryAt fs.ents (startOf fs dest ++ init ++ [n]) = some (.link t)) := by
-      rcases hent : entryAt fs.ents (startOf fs dest ++ init ++ [n]) with _ | e
-      · exact Or.inl rfl
-      · cases e with
-        | link t => exact Or.inr ⟨t, rfl⟩
-        | _ =>
-          rw [resolve_plain fs true fuel dest init n hc hd, lastStep_other hent (by simp)] at hnf
-          cases hnf
-    obtain ⟨ho, hst⟩ := replaceVia_plain f fuel fs dest (tmpName pid) bytes init n hc hd hn
-      (hfs.tmpFree _) (hLcases.elim Or.inl (fun h => Or.inr (Or.inr h)))
+        have hplain : ∀ m' : Ents, (∀ l, l ≠ D ++ [tmpName pid] → l ≠ D ++ [n] → entryAt m' l = entryAt fs.ents l) →
+            LastIn m' fuel [] D D := by
+          intro m' hm'
+          have := lastIn_plain fs.ents m' fuel [] D hD (fun l hl => hm' l
+            (ne_snoc_of_short _ _ _ (by simpa using hl)) (ne_snoc_of_short _ _ _ (by simpa using hl)))
+          simpa using this
+        obtain ⟨hclash, hfree⟩ := replaceVia_core f fuel fs ⟨true, D ++ [n]⟩ (tmpName pid) bytes D n D rfl
+          (by rw [hS]; exact hplain _ (fun _ _ _ => rfl)) (by rw [hS]; exact fun _ => hplain)
+          (Or.inr (Or.inl ⟨i, hent⟩))
+        have hrep : replaceable fs fuel dest = true := by simp [replaceable, h]
+        have hdl : destLoc fs fuel dest = some (D ++ [n]) := by simp [destLoc, h]
+        have hcl : tmpClash fs fuel pid dest = (entryAt fs.ents (D ++ [tmpName pid])).isSome := by
+          simp [tmpClash, hdl]
+        rcases hT : entryAt fs.ents (D ++ [tmpName pid]) with _ | eT
+        · obtain ⟨ho, hst⟩ := hfree hT
+          generalize replaceVia f fuel fs _ _ bytes = r at ho hst ⊢
+          refine { status := by rw [hst]; simp [hrep, hcl, hT], refused := ?_, cwd := ho.cwd, data := ho.data,
+                   ok := ?_, fail := ho.fail }
+          · intro hx; simp [hrep, hcl, hT] at hx
+          intro hok
+          obtain ⟨hents, hdata⟩ := ho.ok hok
+          refine ⟨D ++ [n], hdl, hents, hdata, ?_⟩
+          have hrl := walk_relabel (m1 := fs.ents) (m2 := r.1.ents) (D ++ [n]) i (freshIno fs)
+            (fun l hl => by rw [hents, if_neg hl]) hent (by rw [hents, if_pos rfl]) true fuel
+            (startOf fs dest) dest.comps
+          have hst' : startOf r.1 dest = startOf fs dest := by simp [startOf, ho.cwd]
+          unfold resolve at h ⊢
+          rw [hst', hrl, h]; simp [relabel]
+        · rw [hclash (by rw [hT]; simp)]
+          exact wanSpec_unchanged _ _ _ _ _ _ (Or.inr (by rw [hcl, hT]; rfl))
+  · -- NotFound: the path as given
+    have hnf := canonicalize_notFound hcan
     have hnf' : ∀ loc e, resolve fs true fuel dest ≠ .found loc e := by
-      intro loc e h; rw [h] at hnf; cases hnf
-    have htgt : renameTarget fs fuel dest = some (startOf fs dest ++ init ++ [n]) := by
-      unfold renameTarget
-      rw [resolve_plain fs false fuel dest init n hc hd]
-      rcases hLcases with h | ⟨t, h⟩
-      · rw [lastStep_none h]
-      · rw [lastStep_link h]; simp
-    have hrep : replaceable fs fuel dest = true := by
-      rcases hres : resolve fs true fuel dest with _ | _ | _
-      · exact absurd hres (hnf' _ _)
-      · simp [replaceable, hres, htgt]
-      · simp [replaceable, hres, htgt]
-    generalize replaceVia f fuel fs _ _ bytes = r at ho hst ⊢
-    refine { status := by rw [hst]; simp [hrep], cwd := ho.cwd, data := ho.data, ok := ?_, fail := ho.fail }
-    intro hok
-    obtain ⟨hents, hdata⟩ := ho.ok hok
-    refine ⟨startOf fs dest ++ init ++ [n], ?_, hents, hdata, ?_⟩
-    · unfold destLoc
-      split
-      · rename_i h; exact absurd h (hnf' _ _)
-      · exact htgt
-    · have hst : startOf r.1 dest = startOf fs dest := by simp [startOf, ho.cwd]
-      have hd1 : dirsFrom r.1.ents (startOf r.1 dest) init := by
-        rw [hst]
-        refine dirsFrom_mono ?_ _ _ hd
-        intro l hl
-        rw [hents]
-        by_cases h : l = startOf fs dest ++ init ++ [n]
-        · subst h; rcases hLcases with h | ⟨t, h⟩ <;> rw [h] at hl <;> cases hl
-        · rw [if_neg h]; exact hl
-      rw [resolve_plain r.1 true fuel dest init n hc hd1, hst]
-      exact lastStep_other (by rw [hents, if_pos rfl]) (by simp)
-  | noDir pre n rest hc hr hd hn =>
-    have herr : ∀ fl, resolve fs fl fuel dest = .error := by
-      intro fl; unfold resolve; rw [hc]; exact walk_noDir _ _ _ _ _ _ _ hr hd hn
-    have herr' : ∀ fl, resolve fs fl fuel (withFileName dest (tmpName pid)) = .error := by
-      intro fl
-      unfold resolve
-      have : (withFileName dest (tmpName pid)).comps = pre ++ n :: (rest.dropLast ++ [tmpName pid]) := by
-        simp [withFileName, hc, List.dropLast_append_of_ne_nil, List.dropLast_cons_of_ne_nil hr]
-      rw [this]
-      exact walk_noDir _ _ _ _ _ _ _ (by simp) hd hn
+      intro loc e h; rcases hnf with ⟨d, n, h'⟩ | h' <;> rw [h] at h' <;> cases h'
+    have hmeta : metadataIsFile fs fuel dest = none := by
+      rcases hnf with ⟨d, n, h'⟩ | h' <;> simp [metadataIsFile, h']
     unfold writeAllOrNothingP
-    simp only [canonicalize, herr, Option.getD_none, metadataIsFile, reduceCtorEq, if_false,
-      replaceVia, writeFile, create, herr', Bool.false_eq_true, removeFile]
-    exact wanSpec_unchanged _ _ _ _ _ (by simp [replaceable, renameTarget, herr])
+    rw [hcan]; simp only [hmeta, reduceCtorEq, if_false]
+    have hrepl := replaceable_notFound hcan
+    -- split off the last component
+    rcases List.eq_nil_or_concat dest.comps with hnil | ⟨init, n, hc⟩
+    · exfalso
+      refine hnf' (startOf fs dest) .dir ?_
+      unfold resolve; rw [hnil, walk_eq]; rfl
+    rw [List.concat_eq_append] at hc
+    have hsnT := walk_snoc fs.ents true fuel (startOf fs dest) init
+    have hsnF := walk_snoc fs.ents false fuel (startOf fs dest) init
+    -- when the directory part does not lead to a directory, nothing can be created
+    have hnodir : (∀ x, walk fs.ents false fuel (startOf fs dest) (init ++ [x]) = .error .noent) →
+        WanSpec f fs fuel pid dest bytes
+          (replaceVia f fuel fs (withFileName dest (tmpName pid)) dest bytes) := by
+      intro herr
+      have h1 : resolve fs false fuel (withFileName dest (tmpName pid)) = .error .noent := by
+        unfold resolve
+        rw [show (withFileName dest (tmpName pid)).comps = init ++ [tmpName pid] by simp [withFileName, hc]]
+        exact herr _
+      have h2 : renameTarget fs fuel dest = none := by
+        unfold renameTarget resolve; rw [hc, herr]
+      simp only [replaceVia, createNew, h1]
+      exact wanSpec_unchanged _ _ _ _ _ _ (Or.inl (by rw [hrepl, h2]; rfl))
+    have hdestT : resolve fs true fuel dest = walk fs.ents true fuel (startOf fs dest) (init ++ [n]) := by
+      unfold resolve; rw [hc]
+    rcases hr0 : walk fs.ents true fuel (startOf fs dest) init with ⟨D, e0⟩ | ⟨d0, n0⟩ | e0
+    · rw [hr0] at hsnT hsnF
+      cases e0 with
+      | link t => exact absurd hr0 (walk_follow_not_link _ _ _ _ _ _)
+      | file i =>
+        exfalso
+        have : resolve fs true fuel dest = .error .notdir := by rw [hdestT]; exact hsnT n
+        rcases hnf with ⟨d, n', h'⟩ | h' <;> rw [this] at h' <;> cases h'
+      | dev =>
+        exfalso
+        have : resolve fs true fuel dest = .error .notdir := by rw [hdestT]; exact hsnT n
+        rcases hnf with ⟨d, n', h'⟩ | h' <;> rw [this] at h' <;> cases h'
+      | dir =>
+        obtain ⟨kT, hkT⟩ := hsnT
+        obtain ⟨kF, hkF⟩ := hsnF
+        have hkT : ∀ x, walk fs.ents true fuel (startOf fs dest) (init ++ [x]) = lastStep kT fs.ents true D x := hkT
+        have hkF : ∀ x, walk fs.ents false fuel (startOf fs dest) (init ++ [x]) = lastStep kF fs.ents false D x := hkF
+        -- the name itself: absent, or a link that leads nowhere
+        have hLcases : entryAt fs.ents (D ++ [n]) = none ∨
+            (∃ t, entryAt fs.ents (D ++ [n]) = some (.link t)) := by
+          rcases hent : entryAt fs.ents (D ++ [n]) with _ | e
+          · exact Or.inl rfl
+          · by_cases hl : ∃ t, e = .link t
+            · obtain ⟨t, rfl⟩ := hl; exact Or.inr ⟨t, rfl⟩
+            · exfalso
+              exact hnf' (D ++ [n]) e (by
+                rw [hdestT, hkT n]; exact lastStep_other hent (fun t ht => hl ⟨t, ht⟩))
+        -- stability of the directory part
+        have hstab : entryAt fs.ents (D ++ [tmpName pid]) = none → ∀ m' : Ents,
+            (∀ l, l ≠ D ++ [tmpName pid] → l ≠ D ++ [n] → entryAt m' l = entryAt fs.ents l) →
+            LastIn m' fuel (startOf fs dest) init D := by
+          intro hT m' hm'
+          rcases hLcases with hnone | ⟨t, hlink⟩
+          · exact lastIn_extend fs.ents m' fuel _ init D hr0 (fun l hl => hm' l
+              (by intro h; subst h; exact hl hT) (by intro h; subst h; exact hl hnone))
+          · have hd := hs init n D t hc hcan hr0 hlink
+            have hD : D = startOf fs dest ++ init := by
+              have := walk_dirs fs.ents true fuel _ _ hd
+              rw [hr0] at this; cases this; rfl
+            subst hD
+            exact lastIn_plain fs.ents m' fuel _ init hd (fun l hl => hm' l
+              (ne_snoc_of_short _ _ _ hl) (ne_snoc_of_short _ _ _ hl))
+        have hst0 : LastIn fs.ents fuel (startOf fs dest) init D :=
+          lastIn_extend fs.ents fs.ents fuel _ init D hr0 (fun _ _ => rfl)
+        obtain ⟨hclash, hfree⟩ := replaceVia_core f fuel fs dest (tmpName pid) bytes init n D hc hst0 hstab
+          (hLcases.elim Or.inl (fun h => Or.inr (Or.inr h)))
+        have htgt : renameTarget fs fuel dest = some (D ++ [n]) := by
+          unfold renameTarget resolve
+          rw [hc, hkF n]
+          rcases hLcases with h | ⟨t, h⟩
+          · rw [lastStep_none h]
+          · rw [lastStep_link h]; simp
+        have hdl : destLoc fs fuel dest = some (D ++ [n]) := by
+          unfold destLoc
+          split
+          · rename_i h; exact absurd h (hnf' _ _)
+          · exact htgt
+        have hrep : replaceable fs fuel dest = true := by rw [hrepl, htgt]; rfl
+        have hcl : tmpClash fs fuel pid dest = (entryAt fs.ents (D ++ [tmpName pid])).isSome := by
+          simp [tmpClash, hdl]
+        rcases hT : entryAt fs.ents (D ++ [tmpName pid]) with _ | eT
+        · obtain ⟨ho, hst⟩ := hfree hT
+          generalize replaceVia f fuel fs _ _ bytes = r at ho hst ⊢
+          refine { status := by rw [hst]; simp [hrep, hcl, hT], refused := ?_, cwd := ho.cwd, data := ho.data,
+                   ok := ?_, fail := ho.fail }
+          · intro hx; simp [hrep, hcl, hT] at hx
+          intro hok
+          obtain ⟨hents, hdata⟩ := ho.ok hok
+          refine ⟨D ++ [n], hdl, hents, hdata, ?_⟩
+          have hst' : startOf r.1 dest = startOf fs dest := by simp [startOf, ho.cwd]
+          have hl := hstab hT r.1.ents (fun l h1 h2 => by rw [hents, if_neg h2])
+          obtain ⟨k, hk⟩ := hl true n
+          unfold resolve
+          rw [hst', hc, hk]
+          exact lastStep_other (by rw [hents, if_pos rfl]) (by simp)
+        · rw [hclash (by rw [hT]; simp)]
+          exact wanSpec_unchanged _ _ _ _ _ _ (Or.inr (by rw [hcl, hT]; rfl))
+    · rw [hr0] at hsnF
+      exact hnodir hsnF
+    · rw [hr0] at hsnT hsnF
+      have : resolve fs true fuel dest = .error e0 := by rw [hdestT]; exact hsnT n
+      have he : e0 = .noent := by
+        rcases hnf with ⟨d, n', h'⟩ | h' <;> rw [this] at h' <;> cases h'
+        rfl
+      subst he
+      exact hnodir hsnF
+  · -- any other error: returned at once
+    unfold writeAllOrNothingP
+    rw [hcan]
+    exact wanSpec_unchanged _ _ _ _ _ _ (Or.inl (replaceable_otherError hcan))
 
 /-! ### The `Compile` arm -/
 
 /-- `compileP` = assemble, then `write_all_or_nothing` on the object bytes. -/
 theorem compileP_spec (f : Faults) (fuel pid : Nat) (p : Parsed) (fs : PathFs.Fs) (dest : Path)
-    (hfs : FsOk fs (tmpName pid)) (hs : Shape fs fuel (tmpName pid) dest) :
+    (hfs : FsOk fs) (hs : Shape fs fuel dest) :
     (assembleOk p = none ∧ compileP f fuel pid p fs dest = (1, fs)) ∨
     (∃ orig words r, assembleOk p = some (orig, words) ∧
       compileP f fuel pid p fs dest = ((if r.2 then 0 else 1), r.1) ∧
-      WanSpec f fs fuel dest (objBytes orig words) r) := by
+      WanSpec f fs fuel pid dest (objBytes orig words) r) := by
   cases hp : assembleOk p with
   | none => exact Or.inl ⟨rfl, by simp [compileP, hp]⟩
   | some ow =>
@@ -273,14 +413,19 @@ theorem compileP_spec (f : Faults) (fuel pid : Nat) (p : Parsed) (fs : PathFs.Fs
     simp only [compileP, hp]
     cases (writeAllOrNothingP f fuel pid fs dest (objBytes orig words)).2 <;> rfl
 
+/-- After a failed `write_all_or_nothing` EVERY path resolves as before. -/
+theorem resolve_of_fail {f : Faults} {fs : PathFs.Fs} {fuel pid : Nat} {dest : Path} {bytes : List Nat}
+    {r : PathFs.Fs × Bool} (h : WanSpec f fs fuel pid dest bytes r) (hf : r.2 = false) (fl : Bool) (q : Path) :
+    resolve r.1 fl fuel q = resolve fs fl fuel q := by
+  unfold resolve
+  rw [show startOf r.1 q = startOf fs q by simp [startOf, h.cwd]]
+  exact walk_ext (h.fail hf) fl fuel _ _
+
 /-- After a failed `write_all_or_nothing` EVERY path reads what it read before. -/
-theorem readPath_of_fail {f : Faults} {fs : PathFs.Fs} {tmp : Name} {fuel : Nat} {dest : Path} {bytes : List Nat}
-    {r : PathFs.Fs × Bool} (hfs : FsOk fs tmp) (h : WanSpec f fs fuel dest bytes r) (hf : r.2 = false) (q : Path) :
+theorem readPath_of_fail {f : Faults} {fs : PathFs.Fs} {fuel pid : Nat} {dest : Path} {bytes : List Nat}
+    {r : PathFs.Fs × Bool} (hfs : FsOk fs) (h : WanSpec f fs fuel pid dest bytes r) (hf : r.2 = false) (q : Path) :
     readPath r.1 fuel q = readPath fs fuel q := by
-  have hres : resolve r.1 true fuel q = resolve fs true fuel q := by
-    unfold resolve
-    rw [show startOf r.1 q = startOf fs q by simp [startOf, h.cwd]]
-    exact walk_ext (h.fail hf) true fuel _ _
+  have hres := resolve_of_fail h hf true q
   unfold readPath
   rw [hres]
   rcases hq : resolve fs true fuel q with ⟨loc, e⟩ | _ | _
@@ -296,7 +441,7 @@ theorem readPath_of_fail {f : Faults} {fs : PathFs.Fs} {tmp : Name} {fuel : Nat}
 reading through the destination path yields exactly the object bytes; exit ≠ 0 ⇒ reading through
 the destination path yields what it yielded before (absent included). -/
 theorem compileP_all_or_nothing (f : Faults) (fuel pid : Nat) (p : Parsed) (fs : PathFs.Fs) (dest : Path)
-    (hfs : FsOk fs (tmpName pid)) (hs : Shape fs fuel (tmpName pid) dest) :
+    (hfs : FsOk fs) (hs : Shape fs fuel dest) :
     let r := compileP f fuel pid p fs dest
     (r.1 = 0 → ∃ orig words, assembleOk p = some (orig, words) ∧
                  readPath r.2 fuel dest = .bytes (objBytes orig words)) ∧
@@ -316,7 +461,7 @@ particular nothing appears in the working directory when the destination is else
 destination that is a live link nothing changes in the link's directory unless the target is
 there too. The destination's own location holds what it held, or a regular file. -/
 theorem no_stray_entries (f : Faults) (fuel pid : Nat) (p : Parsed) (fs : PathFs.Fs) (dest : Path)
-    (hfs : FsOk fs (tmpName pid)) (hs : Shape fs fuel (tmpName pid) dest) :
+    (hfs : FsOk fs) (hs : Shape fs fuel dest) :
     let r := compileP f fuel pid p fs dest
     (∀ l, destLoc fs fuel dest ≠ some l → entryAt r.2.ents l = entryAt fs.ents l) ∧
     (∀ l, destLoc fs fuel dest = some l →
@@ -378,7 +523,7 @@ theorem mem_listDir (fs : PathFs.Fs) (d : Loc) (n : Name) :
 /-- **(b), as directory listings.** No directory lists a name it did not list before, other than
 the destination's own name. -/
 theorem no_new_names (f : Faults) (fuel pid : Nat) (p : Parsed) (fs : PathFs.Fs) (dest : Path)
-    (hfs : FsOk fs (tmpName pid)) (hs : Shape fs fuel (tmpName pid) dest) (d : Loc) (n : Name)
+    (hfs : FsOk fs) (hs : Shape fs fuel dest) (d : Loc) (n : Name)
     (hn : n ∈ listDir (compileP f fuel pid p fs dest).2 d) :
     entryAt fs.ents (d ++ [n]) ≠ none ∨ destLoc fs fuel dest = some (d ++ [n]) := by
   have h := mem_listDir _ _ _ hn
@@ -390,7 +535,7 @@ theorem no_new_names (f : Faults) (fuel pid : Nat) (p : Parsed) (fs : PathFs.Fs)
 /-- **(c)** Every other name of the destination's old inode — and every name of every other
 file — still names the same inode, with the same contents: the object file went to a new inode. -/
 theorem hard_link_other_name_unchanged (f : Faults) (fuel pid : Nat) (p : Parsed) (fs : PathFs.Fs) (dest : Path)
-    (hfs : FsOk fs (tmpName pid)) (hs : Shape fs fuel (tmpName pid) dest) (l : Loc) (i : Nat)
+    (hfs : FsOk fs) (hs : Shape fs fuel dest) (l : Loc) (i : Nat)
     (hl : entryAt fs.ents l = some (.file i)) (hne : destLoc fs fuel dest ≠ some l) :
     let r := compileP f fuel pid p fs dest
     entryAt r.2.ents l = some (.file i) ∧ contents r.2 i = contents fs i := by
@@ -403,7 +548,7 @@ theorem hard_link_other_name_unchanged (f : Faults) (fuel pid : Nat) (p : Parsed
 /-- The contents of an inode that had a name never change, not even the destination's old one
 (which may have lost its last name). -/
 theorem old_inodes_unchanged (f : Faults) (fuel pid : Nat) (p : Parsed) (fs : PathFs.Fs) (dest : Path)
-    (hfs : FsOk fs (tmpName pid)) (hs : Shape fs fuel (tmpName pid) dest) (l : Loc) (i : Nat)
+    (hfs : FsOk fs) (hs : Shape fs fuel dest) (l : Loc) (i : Nat)
     (hl : entryAt fs.ents l = some (.file i)) :
     contents (compileP f fuel pid p fs dest).2 i = contents fs i := by
   have hi : i ≠ freshIno fs := by have := lt_freshIno fs l i hl; omega
@@ -415,10 +560,10 @@ theorem old_inodes_unchanged (f : Faults) (fuel pid : Nat) (p : Parsed) (fs : Pa
 them — is written THROUGH: every symbolic link of the file system is still a symbolic link with
 the same target text. -/
 theorem live_link_preserved (f : Faults) (fuel pid : Nat) (p : Parsed) (fs : PathFs.Fs) (dest : Path)
-    (hfs : FsOk fs (tmpName pid)) (loc : Loc) (e : Entry) (h : resolve fs true fuel dest = .found loc e)
+    (hfs : FsOk fs) (loc : Loc) (e : Entry) (h : resolve fs true fuel dest = .found loc e)
     (l : Loc) (t : Path) (hl : entryAt fs.ents l = some (.link t)) :
     entryAt (compileP f fuel pid p fs dest).2.ents l = some (.link t) := by
-  have hs : Shape fs fuel (tmpName pid) dest := .resolves loc e h
+  have hs : Shape fs fuel dest := Shape.ofResolves h
   rw [(no_stray_entries f fuel pid p fs dest hfs hs).1 l]
   · exact hl
   · simp only [destLoc, h]
@@ -429,7 +574,7 @@ theorem live_link_preserved (f : Faults) (fuel pid : Nat) (p : Parsed) (fs : Pat
 
 /-- On success the destination's own location holds a regular file with the object bytes. -/
 theorem dest_location_regular_file (f : Faults) (fuel pid : Nat) (p : Parsed) (fs : PathFs.Fs) (dest : Path)
-    (hfs : FsOk fs (tmpName pid)) (hs : Shape fs fuel (tmpName pid) dest)
+    (hfs : FsOk fs) (hs : Shape fs fuel dest)
     (h0 : (compileP f fuel pid p fs dest).1 = 0) :
     ∃ L i orig words, destLoc fs fuel dest = some L ∧ assembleOk p = some (orig, words) ∧
       entryAt (compileP f fuel pid p fs dest).2.ents L = some (.file i) ∧
@@ -448,7 +593,7 @@ directories) that leads nowhere — relative or absolute target, missing target 
 compile succeeds, the LINK'S OWN NAME is a regular file with the object bytes (nothing is created
 at the place the link pointed to: `no_stray_entries`). -/
 theorem dangling_link_replaced (f : Faults) (fuel pid : Nat) (p : Parsed) (fs : PathFs.Fs) (dest : Path)
-    (hfs : FsOk fs (tmpName pid)) (init : List Name) (n : Name) (t : Path)
+    (hfs : FsOk fs) (init : List Name) (n : Name) (t : Path)
     (hc : dest.comps = init ++ [n]) (hd : dirsFrom fs.ents (startOf fs dest) init)
     (hlink : entryAt fs.ents (startOf fs dest ++ init ++ [n]) = some (.link t))
     (hnf : (resolve fs true fuel dest).isFound = false)
@@ -456,9 +601,7 @@ theorem dangling_link_replaced (f : Faults) (fuel pid : Nat) (p : Parsed) (fs : 
     ∃ i orig words, assembleOk p = some (orig, words) ∧
       entryAt (compileP f fuel pid p fs dest).2.ents (startOf fs dest ++ init ++ [n]) = some (.file i) ∧
       contents (compileP f fuel pid p fs dest).2 i = objBytes orig words := by
-  have hn : n ≠ tmpName pid := by
-    intro hn; subst hn; rw [hfs.tmpFree] at hlink; cases hlink
-  have hs : Shape fs fuel (tmpName pid) dest := .fresh init n hc hn hd hnf
+  have hs : Shape fs fuel dest := Shape.ofPlainDir fs fuel dest init n hc hd
   obtain ⟨L, i, orig, words, hL, hp, he, hcont⟩ := dest_location_regular_file f fuel pid p fs dest hfs hs h0
   have : L = startOf fs dest ++ init ++ [n] := by
     have hnf' : ∀ loc e, resolve fs true fuel dest ≠ .found loc e := by
@@ -472,22 +615,55 @@ theorem dangling_link_replaced (f : Faults) (fuel pid : Nat) (p : Parsed) (fs : 
   subst this
   exact ⟨i, orig, words, hp, he, hcont⟩
 
-/-! ### Every path with a plain directory part is covered -/
+/-- **The temporary name is taken.** If the directory the object file goes to already has an
+entry named `.lace-tmp<pid>` — a file, a directory, a symbolic link, live, dangling or pointing at
+the destination itself — compile exits non-zero and not a single operation changes anything: the
+file system afterwards IS the file system before. (Before lace cb35643 the name was opened with
+`File::create`: `stale_tmp_link_truncates_before_fix`.) -/
+theorem tmp_name_exists_refused (f : Faults) (fuel pid : Nat) (p : Parsed) (fs : PathFs.Fs) (dest : Path)
+    (hfs : FsOk fs) (hs : Shape fs fuel dest) (h : tmpClash fs fuel pid dest = true) :
+    compileP f fuel pid p fs dest = (1, fs) := by
+  rcases compileP_spec f fuel pid p fs dest hfs hs with ⟨_, hc⟩ | ⟨orig, words, r, hp, hc, hw⟩
+  · exact hc
+  · rw [hc, hw.refused (Or.inr h)]; rfl
 
-/-- A destination whose directory part is a chain of plain directories — whatever its last
-component is: absent, a file with any number of names, a device, a directory, a link of any
-kind — is covered. In particular every plain name in the working directory. -/
-theorem Shape.ofPlainDir (fs : PathFs.Fs) (fuel : Nat) (tmp : Name) (dest : Path) (init : List Name) (n : Name)
-    (hc : dest.comps = init ++ [n]) (hn : n ≠ tmp) (hd : dirsFrom fs.ents (startOf fs dest) init) :
-    Shape fs fuel tmp dest := by
-  rcases hres : resolve fs true fuel dest with ⟨loc, e⟩ | _ | _
-  · exact .resolves loc e hres
-  · exact .fresh init n hc hn hd (by simp [hres, Res.isFound])
-  · exact .fresh init n hc hn hd (by simp [hres, Res.isFound])
+/-- **A destination that cannot be resolved** for a reason other than "does not exist" (too many
+levels of symbolic links, a regular file used as a directory): compile exits non-zero and the
+file system afterwards IS the file system before. (Before lace 2214b6f the path as given was
+used: `symlink_depth_counterexample_before_fix`.) No hypothesis on the file system or the path. -/
+theorem unresolvable_refused (f : Faults) (fuel pid : Nat) (p : Parsed) (fs : PathFs.Fs) (dest : Path)
+    (h : canonicalize fs fuel dest = .otherError) :
+    compileP f fuel pid p fs dest = (1, fs) := by
+  unfold compileP
+  cases assembleOk p with
+  | none => rfl
+  | some ow => simp [writeAllOrNothingP, h]
 
-theorem Shape.ofName (fs : PathFs.Fs) (fuel : Nat) (tmp : Name) (n : Name) (hn : n ≠ tmp) :
-    Shape fs fuel tmp ⟨false, [n]⟩ :=
-  Shape.ofPlainDir fs fuel tmp _ [] n rfl hn (by simp [dirsFrom])
+/-- Not replaceable (a device, a directory, a missing directory, unresolvable): non-zero exit and
+the file system afterwards IS the file system before. -/
+theorem not_replaceable_refused (f : Faults) (fuel pid : Nat) (p : Parsed) (fs : PathFs.Fs) (dest : Path)
+    (hfs : FsOk fs) (hs : Shape fs fuel dest) (h : replaceable fs fuel dest = false) :
+    compileP f fuel pid p fs dest = (1, fs) := by
+  rcases compileP_spec f fuel pid p fs dest hfs hs with ⟨_, hc⟩ | ⟨orig, words, r, hp, hc, hw⟩
+  · exact hc
+  · rw [hc, hw.refused (Or.inl h)]; rfl
+
+/-- Exactly when compile succeeds. -/
+theorem compileP_status (f : Faults) (fuel pid : Nat) (p : Parsed) (fs : PathFs.Fs) (dest : Path)
+    (hfs : FsOk fs) (hs : Shape fs fuel dest) :
+    (compileP f fuel pid p fs dest).1 = 0 ↔ ∃ orig words, assembleOk p = some (orig, words) ∧
+      replaceable fs fuel dest = true ∧ tmpClash fs fuel pid dest = false ∧
+      (writeLimited f [] (objBytes orig words)).2 = true ∧ f.renameFails = false := by
+  rcases compileP_spec f fuel pid p fs dest hfs hs with ⟨hp, hc⟩ | ⟨orig, words, r, hp, hc, hw⟩
+  · simp [hc, hp]
+  · rw [hc, hp]
+    cases hok : r.2 with
+    | true => simpa using ⟨orig, words, ⟨rfl, rfl⟩, hw.status.mp hok⟩
+    | false =>
+      simp only [Bool.false_eq_true, if_false, Nat.succ_ne_zero, false_iff, not_exists]
+      intro o w ⟨ho, hrest⟩
+      cases ho
+      rw [← hw.status, hok] at hrest; cases hrest
 
 /-! ### (e) The flattened model is the abstraction of the path-level one -/
 
@@ -497,7 +673,9 @@ def absDest (fs : PathFs.Fs) (fuel : Nat) (p : Path) : Dest :=
   | .bytes b => .file (some b)
   | .dev => .devFull
   | .dir => .uncreatable
-  | .absent => if (renameTarget fs fuel p).isSome then .file none else .uncreatable
+  | .absent =>
+    if canonicalize fs fuel p = .notFound ∧ (renameTarget fs fuel p).isSome = true then .file none
+    else .uncreatable
 
 /-- a path in a writable directory (absent or a regular file) -/
 def isFileDest : Dest → Bool
@@ -506,13 +684,13 @@ def isFileDest : Dest → Bool
 
 theorem absDest_file_iff (fs : PathFs.Fs) (fuel : Nat) (p : Path) :
     isFileDest (absDest fs fuel p) = replaceable fs fuel p := by
-  unfold absDest replaceable readPath
-  rcases hres : resolve fs true fuel p with ⟨loc, e⟩ | _ | _
+  unfold absDest replaceable readPath canonicalize
+  rcases hres : resolve fs true fuel p with ⟨loc, e⟩ | _ | e
   · cases e with
     | link t => exact absurd hres (walk_follow_not_link _ _ _ _ _ _)
     | _ => simp [isFileDest]
   · cases h : (renameTarget fs fuel p).isSome <;> simp [isFileDest]
-  · cases h : (renameTarget fs fuel p).isSome <;> simp [isFileDest]
+  · cases e <;> cases h : (renameTarget fs fuel p).isSome <;> simp [isFileDest]
 
 /-- The flattened `compile`, computed. -/
 theorem compileFs_eq (f : Faults) (p : Parsed) (d : Dest) :
@@ -542,14 +720,16 @@ theorem compileFs_eq (f : Faults) (p : Parsed) (d : Dest) :
         subst hb
         cases hr : f.renameFails <;> simp [writeAllOrNothing, applyOps, applyOp, hwl, hr, isFileDest]
 
-/-- **(e)** For every covered destination path, the flattened model `compileFs` of
-`Model/CliFlows.lean`, started on the abstraction of the path-level file system (what reading
-through the path gives: these bytes / absent / a device / cannot be created), ends with the exit
-status of `compileP` and on the abstraction of the file system `compileP` ends on — and with no
-temporary file. So the theorems of `Props/C08.lean` and `Props/C07.lean` about `compileFs` /
-`compile` are theorems about `compileP`. -/
+/-- **(e)** For every covered destination path, when the name of the temporary file is free: the
+flattened model `compileFs` of `Model/CliFlows.lean`, started on the abstraction of the path-level
+file system (what reading through the path gives: these bytes / absent / a device / cannot be
+created), ends with the exit status of `compileP` and on the abstraction of the file system
+`compileP` ends on — and with no temporary file. So the theorems of `Props/C08.lean` and
+`Props/C07.lean` about `compileFs` / `compile` are theorems about `compileP`. (With the temporary
+name taken, `compileP` refuses — `tmp_name_exists_refused` — which the flattened model, whose
+`createTmp` truncates, does not describe.) -/
 theorem compileP_refines_compileFs (f : Faults) (fuel pid : Nat) (p : Parsed) (fs : PathFs.Fs) (dest : Path)
-    (hfs : FsOk fs (tmpName pid)) (hs : Shape fs fuel (tmpName pid) dest) :
+    (hfs : FsOk fs) (hs : Shape fs fuel dest) (hfree : tmpClash fs fuel pid dest = false) :
     compileFs f p { dest := absDest fs fuel dest } =
       ((compileP f fuel pid p fs dest).1,
        { dest := absDest (compileP f fuel pid p fs dest).2 fuel dest, tmp := none }) := by
@@ -560,7 +740,7 @@ theorem compileP_refines_compileFs (f : Faults) (fuel pid : Nat) (p : Parsed) (f
     simp only
     cases hok : r.2 with
     | true =>
-      obtain ⟨hrep, hfit, hrf⟩ := hw.status.mp hok
+      obtain ⟨hrep, _, hfit, hrf⟩ := hw.status.mp hok
       obtain ⟨L, _, _, hdata, hres⟩ := hw.ok hok
       have : absDest r.1 fuel dest = .file (some (objBytes orig words)) := by
         simp [absDest, readPath, hres, hdata]
@@ -568,23 +748,22 @@ theorem compileP_refines_compileFs (f : Faults) (fuel pid : Nat) (p : Parsed) (f
     | false =>
       have hno : ¬ (isFileDest (absDest fs fuel dest) = true ∧
           (writeLimited f [] (objBytes orig words)).2 = true ∧ f.renameFails = false) := by
-        rw [absDest_file_iff, ← hw.status, hok]; simp
+        intro ⟨h1, h2, h3⟩
+        rw [absDest_file_iff] at h1
+        have := hw.status.mpr ⟨h1, hfree, h2, h3⟩
+        rw [hok] at this; cases this
       have hsame : absDest r.1 fuel dest = absDest fs fuel dest := by
-        have htgt : renameTarget r.1 fuel dest = renameTarget fs fuel dest := by
-          unfold renameTarget resolve
-          rw [show startOf r.1 dest = startOf fs dest by simp [startOf, hw.cwd],
-            walk_ext (hw.fail hok) false fuel _ _]
-        unfold absDest
-        rw [readPath_of_fail hfs hw hok dest, htgt]
+        unfold absDest canonicalize renameTarget
+        rw [readPath_of_fail hfs hw hok dest, resolve_of_fail hw hok true, resolve_of_fail hw hok false]
       rw [if_neg hno, hsame]; rfl
 
-/-- (e) for the destinations `CliFlows` was written for: a plain name in the working directory. -/
+/-- (e) for the destinations `CliFlows` was written for: a name in the working directory. -/
 theorem compileP_name_refines_compileFs (f : Faults) (fuel pid : Nat) (p : Parsed) (fs : PathFs.Fs) (n : Name)
-    (hfs : FsOk fs (tmpName pid)) (hn : n ≠ tmpName pid) :
+    (hfs : FsOk fs) (hfree : tmpClash fs fuel pid ⟨false, [n]⟩ = false) :
     compileFs f p { dest := absDest fs fuel ⟨false, [n]⟩ } =
       ((compileP f fuel pid p fs ⟨false, [n]⟩).1,
        { dest := absDest (compileP f fuel pid p fs ⟨false, [n]⟩).2 fuel ⟨false, [n]⟩, tmp := none }) :=
-  compileP_refines_compileFs f fuel pid p fs _ hfs (Shape.ofName fs fuel _ n hn)
+  compileP_refines_compileFs f fuel pid p fs _ hfs (Shape.ofName fs fuel n) hfree
 
 /-! ### The hypotheses are decidable on concrete file systems -/
 
@@ -597,26 +776,6 @@ instance decDirsFrom (m : Ents) : ∀ (cur : Loc) (ds : List Name), Decidable (d
     | _, isFalse h2 => isFalse fun h => h2 h.2
 
 instance (m : Ents) (d : Loc) : Decidable (CanonDir m d) := decDirsFrom m [] d
-
-/-- No key of the entry table ends in `tmp`. -/
-def tmpFreeB (m : Ents) (tmp : Name) : Bool := m.all fun ke => ke.1.getLast? != some tmp
-
-theorem tmpFree_of_check (m : Ents) (tmp : Name) (h : tmpFreeB m tmp = true) (D : Loc) :
-    entryAt m (D ++ [tmp]) = none := by
-  unfold entryAt
-  simp only [List.append_eq_nil_iff, List.cons_ne_self, and_false, if_false]
-  induction m with
-  | nil => rfl
-  | cons a m ih =>
-    obtain ⟨k, e⟩ := a
-    simp only [tmpFreeB, List.all_cons, Bool.and_eq_true] at h
-    have hk : k ≠ D ++ [tmp] := by
-      intro hk; subst hk; simp at h
-    simp only [mget, hk, if_false]
-    exact ih h.2
-
-theorem FsOk.ofCheck (fs : PathFs.Fs) (tmp : Name) (h1 : CanonDir fs.ents fs.cwd) (h2 : tmpFreeB fs.ents tmp = true) :
-    FsOk fs tmp := ⟨h1, tmpFree_of_check _ _ h2⟩
 
 /-! ### Examples: the destinations of the harness (`harness/src/cli.rs`, `obs_c08`), each with a fault
 
@@ -646,12 +805,9 @@ private def observe (r : Nat × PathFs.Fs) (dest : Path) : Nat × Read × List N
   (r.1, readPath r.2 40 dest, listDir r.2 ["work"], listDir r.2 ["work", "sub"])
 
 -- the hypotheses hold for the harness's file systems
-example : FsOk (work [(["work", "sub", "link.lc3"], relTarget)]) (tmpName 7) :=
-  FsOk.ofCheck _ _ (by decide) (by decide)
-example : Shape (work [(["work", "sub", "link.lc3"], relTarget)]) 40 (tmpName 7) link :=
-  Shape.ofPlainDir _ _ _ _ ["sub"] "link.lc3" rfl (by decide) (by decide)
-example : Shape (work []) 40 (tmpName 7) ⟨false, ["no-such-dir", "out.lc3"]⟩ :=
-  .noDir [] "no-such-dir" ["out.lc3"] rfl (by decide) (by decide) (by decide)
+example : FsOk (work [(["work", "sub", "link.lc3"], relTarget)]) := ⟨by decide⟩
+example : Shape (work [(["work", "sub", "link.lc3"], relTarget)]) 40 link :=
+  Shape.ofPlainDir _ _ _ ["sub"] "link.lc3" rfl (by decide)
 
 -- a plain name in the working directory: absent
 example : observe (compileP {} 40 7 halt (work []) out) out =
@@ -670,7 +826,7 @@ example : observe (compileP { limit := some 0 } 40 7 halt (work [(["work", "out.
 -- a name in a sub-directory: the temporary file lives there, never in the working directory
 example : observe (compileP {} 40 7 halt (work []) subOut) subOut =
     (0, .bytes obj, ["s.asm", "sub"], ["out.lc3"]) := by decide
-example : (writeFile {} (work []) 40 (withFileName subOut (tmpName 7)) obj).1.ents.head? =
+example : (createNew (work []) 40 (withFileName subOut (tmpName 7))).1.ents.head? =
     some (["work", "sub", ".lace-tmp7"], .file 2) := by decide
 -- a live link, relative target: written through, link kept
 example : observe (compileP {} 40 7 halt
@@ -710,40 +866,77 @@ example : observe (compileP {} 40 7 halt (work [(["work", "devfull"], .dev)]) 
 -- a missing directory
 example : observe (compileP {} 40 7 halt (work []) ⟨false, ["no-such-dir", "out.lc3"]⟩) ⟨false, ["no-such-dir", "out.lc3"]⟩ =
     (1, .absent, ["s.asm", "sub"], []) := by decide
+-- a new name behind a symbolic link to a directory (covered: `Shape.ofNotLink`)
+example : observe (compileP {} 40 7 halt (work [(["work", "d"], .link ⟨false, ["sub"]⟩)]) ⟨false, ["d", "out.lc3"]⟩)
+      ⟨false, ["d", "out.lc3"]⟩ = (0, .bytes obj, ["s.asm", "sub", "d"], ["out.lc3"]) := by decide
 -- the flattened model on the abstraction (theorem (e)), under a fault
 example : compileFs { limit := some 3 } halt { dest := absDest (work [(["work", "out.lc3"], .file 2)]) 40 out } =
     (1, { dest := .file (some old), tmp := none }) := by decide
--- NOT covered by `Shape` (a new name behind a symbolic link to a directory), evaluated: fine
-example : observe (compileP {} 40 7 halt (work [(["work", "d"], .link ⟨false, ["sub"]⟩)]) ⟨false, ["d", "out.lc3"]⟩)
-      ⟨false, ["d", "out.lc3"]⟩ = (0, .bytes obj, ["s.asm", "sub", "d"], ["out.lc3"]) := by decide
+-- NOT covered by `Shape` (a dangling link behind a symbolic link to a directory), evaluated: fine
+example : observe (compileP {} 40 7 halt
+      (work [(["work", "d"], .link ⟨false, ["sub"]⟩), (["work", "sub", "link.lc3"], relTarget)]) ⟨false, ["d", "link.lc3"]⟩)
+      ⟨false, ["d", "link.lc3"]⟩ = (0, .bytes obj, ["s.asm", "sub", "d"], ["link.lc3"]) := by decide
+
+/-! #### The two destinations added with the fixes (harness variants `stale:` and `deep:`) -/
+
+/-- `work/out.lc3` (inode 2) and `work/.lace-tmp7`, a symbolic link to it -/
+private def stale : PathFs.Fs := work [(["work", "out.lc3"], .file 2), (["work", ".lace-tmp7"], .link ⟨false, ["out.lc3"]⟩)]
+/-- `work/n`, a link to the directory that holds it (`ln -s . n`) -/
+private def deepFs : PathFs.Fs := work [(["work", "n"], .link ⟨false, []⟩)]
+private def deep (k : Nat) : Path := ⟨false, List.replicate k "n"⟩
+
+-- the temporary name is taken: refused, with or without a fault; the link is still there
+example : compileP { limit := some 3 } 40 7 halt stale out = (1, stale) := by decide
+example : compileP {} 40 7 halt stale out = (1, stale) := by decide
+example : tmpClash stale 40 7 out = true := by decide
+-- 40 components lead (through 40 links) to the directory `work/`: not replaceable;
+-- 41 and 42 cannot be resolved: refused. Nothing changes in any case.
+example : compileP {} 40 7 halt deepFs (deep 39) = (1, deepFs) := by decide
+example : compileP {} 40 7 halt deepFs (deep 40) = (1, deepFs) := by decide
+example : compileP {} 40 7 halt deepFs (deep 41) = (1, deepFs) := by decide
+example : compileP {} 40 7 halt deepFs (deep 42) = (1, deepFs) := by decide
+example : canonicalize deepFs 40 (deep 40) = .ok ⟨true, ["work"]⟩ := by decide
+example : canonicalize deepFs 40 (deep 41) = .otherError := by decide
 
 end examples
 
-/-! ### Where the statement stops being true -/
+/-! ### The two defects of the implementation before lace cb35643 / 2214b6f -/
 
-/-- `FsOk.tmpFree` is needed. `File::create(tmp)` follows links and truncates: if
-`.lace-tmp<pid>` already exists as a symbolic link to the destination, a write that fails half-way
-leaves the destination truncated — exit 1, and the destination (7 bytes) now holds 3 bytes of
-the new object file. (Confirmed on the binary with 3,000 such links for the next process ids and RLIMIT_FSIZE = 3: exit 1, `01…07` became `30 00 f0`; DESIGN.md §11.3 "C08 paths".) -/
-theorem stale_tmp_link_truncates :
+/-- **Before cb35643.** `File::create(tmp)` followed links and truncated: with `.lace-tmp<pid>`
+already existing as a symbolic link to the destination, a write failing half-way left the
+destination truncated — exit 1, and the destination (7 bytes) held 3 bytes of the new object
+file. (Replayed on the binary at 5a35dc3 with 3,000 such links for the next process ids and
+RLIMIT_FSIZE = 3: exit 1, `01…07` became `30 00 f0`.) -/
+theorem stale_tmp_link_truncates_before_fix :
     let fs : PathFs.Fs :=
       { ents := [(["out.lc3"], .file 2), ([".lace-tmp7"], .link ⟨false, ["out.lc3"]⟩)], data := [(2, [1, 2, 3, 4, 5, 6, 7])] }
-    let r := compileP { limit := some 3 } 40 7 (some (none, [some 0xF025#16])) fs ⟨false, ["out.lc3"]⟩
+    let r := compilePBeforeFix { limit := some 3 } 40 7 (some (none, [some 0xF025#16])) fs ⟨false, ["out.lc3"]⟩
     r.1 = 1 ∧ readPath fs 40 ⟨false, ["out.lc3"]⟩ = .bytes [1, 2, 3, 4, 5, 6, 7] ∧
       readPath r.2 40 ⟨false, ["out.lc3"]⟩ = .bytes [0x30, 0x00, 0xF0] := by decide
 
-/-- `Shape` is needed: without it the statement is false at the limit of link-following. `n` is a
-link to the directory that holds it; with `fuel` links allowed, the path `n/n/…/n` (`fuel + 1`
+/-- The same input on the fixed code: refused, nothing changes (`tmp_name_exists_refused`). -/
+theorem stale_tmp_link_refused :
+    let fs : PathFs.Fs :=
+      { ents := [(["out.lc3"], .file 2), ([".lace-tmp7"], .link ⟨false, ["out.lc3"]⟩)], data := [(2, [1, 2, 3, 4, 5, 6, 7])] }
+    compileP { limit := some 3 } 40 7 (some (none, [some 0xF025#16])) fs ⟨false, ["out.lc3"]⟩ = (1, fs) := by decide
+
+/-- **Before 2214b6f.** Any failure of `canonicalize` made the path as given the destination. `n`
+is a link to the directory that holds it; with `fuel` links allowed, the path `n/n/…/n` (`fuel + 1`
 components) needs `fuel + 1` links when its last component is followed (`canonicalize`,
-`metadata`: ELOOP) but only `fuel` when it is not (`rename`): compile replaces the LINK `n` by
-the object file and exits 0, after which the destination path cannot be read (`n` is no longer a
-directory). Here with `fuel = 1`; Linux allows 40. (Confirmed on the binary: `ln -s . n`,
-destination `n/n/…/n` with 41 components: exit 0, `n` is a 4-byte regular file, opening the
-destination fails with ENOTDIR; with 40 or 42 components: exit 1, nothing changed.) -/
-theorem symlink_depth_counterexample :
+`metadata`: ELOOP) but only `fuel` when it is not (`rename`): compile replaced the LINK `n` by
+the object file and exited 0, after which the destination path could not be read (`n` no longer a
+directory). Here with `fuel = 1`; Linux allows 40. (Replayed on the binary at 5a35dc3: `ln -s . n`,
+destination `n/n/…/n` with 41 components: exit 0, `n` a 4-byte regular file, opening the
+destination failed with ENOTDIR; with 40 or 42 components: exit 1, nothing changed.) -/
+theorem symlink_depth_counterexample_before_fix :
     let fs : PathFs.Fs := { ents := [(["n"], .link ⟨true, []⟩)] }
-    let r := compileP {} 1 7 (some (none, [some 0xF025#16])) fs ⟨false, ["n", "n"]⟩
+    let r := compilePBeforeFix {} 1 7 (some (none, [some 0xF025#16])) fs ⟨false, ["n", "n"]⟩
     r.1 = 0 ∧ readPath r.2 1 ⟨false, ["n", "n"]⟩ = .absent ∧
       entryAt r.2.ents ["n"] = some (.file 1) := by decide
+
+/-- The same input on the fixed code: refused, nothing changes (`unresolvable_refused`). -/
+theorem symlink_depth_refused :
+    let fs : PathFs.Fs := { ents := [(["n"], .link ⟨true, []⟩)] }
+    compileP {} 1 7 (some (none, [some 0xF025#16])) fs ⟨false, ["n", "n"]⟩ = (1, fs) := by decide
 
 end Lace.C08
